@@ -317,4 +317,4 @@ def check_big(case, ev):
 
 
 def parts(tier):
-    return [Part("cfg_shapes", enumerate_cases=(lambda t: ({"model": s_, "prios": [[["item", 1]], []][: 1 + (j_ % 2)], "via": j_ % 3} for j_, s_ in enumerate(S.cfg_small_shapes()))), check=check, time_quick=150.0), Part("scale", strategy=lambda t: big_case(t), check=check_big, quick=(2, 20), thorough=(4, 300)), Part("objective", strategy=lambda t: case_strategy(t), check=check, quick=(8, 250), thorough=(16, 1500))]
+    return [Part("direct_config", strategy=lambda t: __import__("vf.props.c15", fromlist=["x"]).narrow_config_case(t), check=__import__("vf.props.c15", fromlist=["x"]).check_narrow_config, quick=(1, 150), thorough=(2, 1500)), Part("cfg_shapes", enumerate_cases=(lambda t: ({"model": s_, "prios": [[["item", 1]], []][: 1 + (j_ % 2)], "via": j_ % 3} for j_, s_ in enumerate(S.cfg_small_shapes()))), check=check, time_quick=150.0), Part("scale", strategy=lambda t: big_case(t), check=check_big, quick=(2, 20), thorough=(4, 300)), Part("objective", strategy=lambda t: case_strategy(t), check=check, quick=(8, 250), thorough=(16, 1500))]
